@@ -1,6 +1,8 @@
 import EupsModel.Drv.Util
 import EupsModel.Model.Vro
 import EupsModel.Model.VroC10
+import EupsModel.Model.VroApi
+import EupsModel.Model.VroPath
 namespace EupsModel.Drv.C03
 open Lean EupsModel EupsModel.Drv EupsModel.Vro
 
@@ -28,7 +30,13 @@ def ctxOfJson (j : Json) : Except String Ctx := do
   let db ← (← jarr j "db").mapM stackOfJson
   let mode ← modeOf (← (← j.getObjVal? "mode").getStr?)
   let accepted ← (← jarr j "accepted").mapM fun b => b.getBool?
-  pure (mkCtx c10Ord (← jstrs j "globalTags") db mode (← jstrs j "loaded") accepted)
+  let optStrs (k : String) : Except String (List Str) :=
+    match j.getObjVal? k with
+    | .ok Json.null => pure []
+    | .error _ => pure []
+    | .ok _ => jstrs j k
+  pure ((mkCtx c10Ord (← jstrs j "globalTags") db mode (← jstrs j "loaded") accepted).withExtras
+    (← optStrs "userTags") (← optStrs "dirs"))
 
 /-- the guard of `Model/VroC10.lean`: the comparator accepts every declared version name and can
 evaluate every expression of the request on it; otherwise the model does not answer -/
@@ -49,14 +57,45 @@ def reqOfJson (j : Json) : Except String Req := do
     | .ok a => do
       pure (some (⟨← jstr a "version", ← jstr a "flavor", ← jnat a "stack"⟩, ← jstrOpt a "reason")) :
       Except String (Option (Prod × Option Str)))
+  let setupEnv ← (match j.getObjVal? "setupEnv" with
+    | .ok Json.null => pure none
+    | .error _ => pure none
+    | .ok a => do
+      let st ← (match a.getObjVal? "stack" with
+        | .ok Json.null => pure none
+        | .error _ => pure none
+        | .ok _ => do pure (some (← jnat a "stack")) : Except String (Option Nat))
+      pure (some { version := ← jstr a "version", flavor := ← jstr a "flavor", stack := st }) :
+      Except String (Option SetupRec))
   pure { name := ← jstr j "name", version := ← jstrOpt j "version", vexpr := ← jstrOpt j "vexpr",
          depth := ← jnat j "depth", flavor := ← jstr j "flavor", ignoreVersions := ← jbool j "ignore",
-         already := already }
+         already := already, setupEnv := setupEnv }
 
 def errName : Err → String
   | .badExpr => "badExpr" | .indexError => "indexError" | .typeError => "typeError"
   | .valueError => "valueError" | .unboundLocal => "unboundLocal" | .runtimeError => "runtimeError"
   | .keyError => "keyError" | .outOfFuel => "outOfFuel" | .unsupported => "unsupported"
+
+def fileErrName : FileErr → String
+  | .suspicious => "suspicious" | .invalid => "invalid"
+
+def apiErrName : ApiErr → String
+  | .tagNotRecognized => "tagNotRecognized" | .badExpr => "badExpr" | .notFound => "notFound"
+  | .file e => "file:" ++ fileErrName e | .unsupported => "unsupported" | .walk e => (match e with
+    | .badExpr => "badExpr" | .indexError => "indexError" | .typeError => "typeError"
+    | .valueError => "valueError" | .unboundLocal => "unboundLocal" | .runtimeError => "runtimeError"
+    | .keyError => "keyError" | .outOfFuel => "outOfFuel" | .unsupported => "unsupported")
+
+def apiAnswer (r : Except ApiErr (Option Prod)) : Json :=
+  match r with
+  | .ok none => Json.mkObj [("out", "ok"), ("prod", Json.null)]
+  | .ok (some p) => Json.mkObj [("out", "ok"), ("prod", Json.mkObj [("version", ofStr p.version), ("flavor", ofStr p.flavor),
+      ("stack", (p.stack : Nat))])]
+  | .error e => Json.mkObj [("out", "err"), ("err", apiErrName e)]
+
+def apiReqOfJson (j : Json) : Except String ApiReq := do
+  pure { name := ← jstr j "name", flavor := ← jstr j "flavor", ignoreVersions := ← jbool j "ignore",
+         preferred := ← jstrs j "preferred", force := ← jbool j "force" }
 
 def hitToJson : Option Hit → Json
   | none => Json.null
@@ -125,6 +164,62 @@ def handle : Handler := fun j => do
     match (if op == "selectVRO" then selectVRO else selectVROTwice) (← cfgOfJson (← j.getObjVal? "cfg")) (← argsOfJson (← j.getObjVal? "args")) with
     | .ok o => pure (Json.mkObj [("out", "ok"), ("vro", ofStrs o.vro), ("exact", o.exact)])
     | .error e => pure (Json.mkObj [("out", "err"), ("err", errName e)])
+  | "vroCmd" | "setupCmdVro" | "vroCmdPinned" =>
+    -- `toks`: [["t", tag] | ["T", tag] | ["c"]] in command-line order
+    let toks ← (← jarr j "toks").mapM fun t => do
+      match (← t.getArr?).toList with
+      | [k, v] =>
+        let ks ← k.getStr?
+        let vs ← v.getStr?
+        if ks == "t" then pure (CliTok.tag (Str.ofString vs))
+        else if ks == "T" then pure (CliTok.postTag (Str.ofString vs))
+        else throw "tok"
+      | [_] => pure CliTok.current
+      | _ => throw "tok"
+    let dj ← j.getObjVal? "defaults"
+    let d : DefaultTags := { pre := ← jstrs dj "pre", post := ← jstrs dj "post" }
+    let k : CliCmd := { toks := toks, version := ← jbool j "version", exact := ← jbool j "exact", dbz := ← jstrOpt j "dbz" }
+    let c ← cfgOfJson (← j.getObjVal? "cfg")
+    match (if op == "vroCmd" then vroCmd else if op == "setupCmdVro" then setupCmdVro else vroCmdPinned) c d k with
+    | .ok o => pure (Json.mkObj [("out", "ok"), ("vro", ofStrs o.vro), ("exact", o.exact)])
+    | .error e => pure (Json.mkObj [("out", "err"), ("err", errName e)])
+  | "setEupsPath" =>
+    let dirs ← jstrs j "dirs"
+    match setEupsPath (fun p => dirs.contains p) (← jstr j "path") (← jstrOpt j "dbz") with
+    | .ok l => pure (Json.mkObj [("out", "ok"), ("path", ofStrs l)])
+    | .error _ => pure unsupportedAns
+  | "normpath" => pure (Json.mkObj [("norm", ofStr (normpath (← jstr j "p")))])
+  | "tagFileVersion" =>
+    match tagFileVersion (← jstr j "content") (← jstr j "name") with
+    | .ok none => pure (Json.mkObj [("out", "ok"), ("version", Json.null)])
+    | .ok (some v) => pure (Json.mkObj [("out", "ok"), ("version", ofStr v)])
+    | .error e => pure (Json.mkObj [("out", "err"), ("err", fileErrName e)])
+  | "findF" =>
+    -- `files`: [[name, text]] — the VRO entries that name existing files
+    let C ← ctxOfJson j
+    let r ← reqOfJson (← j.getObjVal? "req")
+    let q ← apiReqOfJson (← j.getObjVal? "q")
+    let files ← (← jarr j "files").mapM fun p => do
+      match ← strsOf p with
+      | [n, t] => pure (n, t)
+      | _ => throw "file: expected [name, text]"
+    let listed := files.filterMap fun f => match tagFileVersion f.2 q.name with | .ok (some v) => some (some v) | _ => none
+    if !(← guardOk j ([r.version, r.vexpr] ++ listed)) then return unsupportedAns
+    match findF C files q r (← jstrs j "vro") with
+    | .ok h => pure (Json.mkObj [("out", "ok"), ("hit", hitToJson h)])
+    | .error e => pure (Json.mkObj [("out", "err"), ("err", apiErrName e)])
+  | "findProductApi" =>
+    let C ← ctxOfJson j
+    let v ← jstrOpt j "version"
+    if !(← guardOk j [v]) then return unsupportedAns
+    pure (apiAnswer (findProductApi C (← apiReqOfJson (← j.getObjVal? "q")) v))
+  | "findTaggedFromFile" =>
+    let C ← ctxOfJson j
+    let q ← apiReqOfJson (← j.getObjVal? "q")
+    let content ← jstr j "content"
+    let v := match tagFileVersion content q.name with | .ok (some v) => some v | _ => none
+    if !(← guardOk j [v]) then return unsupportedAns
+    pure (apiAnswer (findTaggedFromFile C q content))
   | "tableLineVro" =>
     let lv ← (match j.getObjVal? "lineVro" with
       | .ok Json.null => pure none
